@@ -123,7 +123,7 @@ func (e *Engine) verifyFunction(fn *ssa.Function, impl *Contract) (un *Unit, err
 		r := &f.rets[i]
 		un.smoke(&r.st, fmt.Sprintf("ret%d", i+1))
 		if ct != nil {
-			penv := f.postEnv(&f.entry)
+			penv := f.postEnv(&r.st) // parameters: entry values; captured variables: their value at this return
 			outs := r.vals
 			for j, o := range outs {
 				if j < len(ct.Results) {
